@@ -352,6 +352,16 @@ class G:
         else:
             target = tv
             newvars = [(tv, ty)]
+            hdr = self.int(0, 15) if not it.startswith("boom(") else 99
+            if hdr == 0:
+                # a tuple without parentheses as the iterable
+                it, newvars, withlen = "cs, cx0, cx1", [(tv, "str")], True
+            elif hdr == 1:
+                # a starred target (the starred name is not used by the body)
+                target, it, newvars, withlen = "%s, *%s" % (tv, self.uid("r")), "[(cs, cn), (cx0, cn, cn)]", [(tv, "str")], True
+            elif hdr == 2:
+                # the header continued over two lines
+                it, newvars, withlen = "[cs, \\\n    cx0]", [(tv, "str")], True
         mark = len(sc.vars)
         sc.vars += newvars
         sc.loops.append({"has_len": withlen})
